@@ -149,9 +149,9 @@ Qed.
 (* ================================================================== where SkipValue stands when it throws *)
 
 (* MpScopeModel.skip_at_impl is the string reader's SkipValueImpl with the reader position at the throw
-   (the scope destructors go on from there).  The same for the stream reader: its ReadExtSize CONSUMES
-   the length field, so when the payload of a str / bin / ext 8,16,32 is cut short it stands behind
-   the length field, not behind the type byte.  Everything else is skip_at_impl. *)
+   (the scope destructors go on from there).  The same for the stream reader: since fix e491e27 it moves
+   over the payload by reading through it (SkipBytes), so when the payload of any value is cut short it
+   stands at the end of the data, not behind the type byte.  Everything else is skip_at_impl. *)
 Fixpoint sskip_at_impl (fuel : nat) (rest : list N) {struct fuel} : ares :=
   match fuel with
   | O => AFuel
@@ -171,7 +171,7 @@ Fixpoint sskip_at_impl (fuel : nat) (rest : list N) {struct fuel} : ares :=
         let size := if is_sized (m_ty m) then m_data m + ext0 else m_data m in
         let ext := if is_sized (m_ty m) then 0 else ext0 in
         match take size r2 with
-        | None => AErr EParse r2
+        | None => AErr EParse []                           (* SkipBytes has read to the end of the data *)
         | Some (_, r3) =>
           if ext =? 0 then AOk r3
           else match m_ty m with
@@ -524,32 +524,68 @@ Section Wp.
     | SFuel => a = QFuel
     end.
 
-  Lemma wp_skip_rep (step : prog (sr unit)) (sstep : list N -> sres) :
-    (forall d, Suffix d -> wp step (st d) (spost (sstep d))) ->
-    forall g cnt d, Suffix d -> wp (mps_skip_rep step g cnt) (st d) (spost (skip_rep sstep g cnt d)).
+  Lemma wp_skip_rep (step : prog (sr unit)) (sstep : list N -> sres) (n : nat) :
+    (forall d r, sstep d = SOk r -> (length r <= length d)%nat) ->
+    (forall d, Suffix d -> (length d <= n)%nat -> wp step (st d) (spost (sstep d))) ->
+    forall g cnt d, Suffix d -> (length d <= n)%nat ->
+      wp (mps_skip_rep step g cnt) (st d) (spost (skip_rep sstep g cnt d)).
   Proof.
-    intros Hstep. induction g as [|g IH]; intros cnt d HS; cbn [mps_skip_rep skip_rep].
+    intros Hprog Hstep. induction g as [|g IH]; intros cnt d HS Hn; cbn [mps_skip_rep skip_rep].
     - destruct (cnt =? 0); cbn [wp spost]; [auto | reflexivity].
     - destruct (cnt =? 0); [cbn [wp spost]; auto|].
-      apply wp_qbind. eapply wp_mono; [|apply Hstep; exact HS].
-      intros a m' Ha. destruct (sstep d) as [r|e|]; cbn [spost] in Ha.
-      + destruct Ha as [-> [-> HSr]]. apply IH. exact HSr.
+      apply wp_qbind. eapply wp_mono; [|apply Hstep; assumption].
+      intros a m' Ha. destruct (sstep d) as [r|e|] eqn:Es; cbn [spost] in Ha.
+      + destruct Ha as [-> [-> HSr]]. apply IH; [exact HSr|]. apply Hprog in Es. lia.
       + subst a. reflexivity.
       + subst a. reflexivity.
   Qed.
 
-  (* the part after the header: "if (size == 0 || SetPosition(GetPosition() + size)) children else throw" *)
-  Lemma wp_skip_tail (children : prog (sr unit)) size d (Q : sr unit -> mem -> Prop) : Suffix d -> size < 0x400000000 ->
+  (* SkipBytes: the ReadByChunks loop moves over exactly [n] bytes, or reads to the end of the data and
+     reports false *)
+  Lemma wp_skip_bytes (Q : sr bool -> mem -> Prop) : forall lf n d,
+    Suffix d -> sizet n -> (length d < lf)%nat ->
+    (forall s r, take n d = Some (s, r) -> Suffix r -> Q (QOk true) (st r)) ->
+    (take n d = None -> Q (QOk false) (st [])) ->
+    wp (mps_skip_bytes lf n) (st d) Q.
+  Proof.
+    induction lf as [|lf IH]; intros n d HS Hn Hf H1 H2; [lia|].
+    cbn [mps_skip_bytes]. destruct (N.eqb_spec n 0) as [->|Hn0].
+    { cbn [wp]. apply (H1 [] d (take_0 d) HS). }
+    apply wp_chunks; [exact HS | exact Hn |].
+    intros l r Ed Hl Hempty HSr.
+    destruct l as [|x l].
+    - cbn [wp]. destruct (Hempty eq_refl) as [E|E]; [contradiction|]. cbn [app] in Ed. subst r.
+      rewrite E in *. apply H2. unfold take. cbn [length].
+      replace (n <=? N.of_nat 0) with false by (symmetry; lia). reflexivity.
+    - set (l1 := x :: l) in *.
+      assert (Ll : (0 < length l1)%nat) by (subst l1; cbn [length]; lia).
+      assert (Et : take (N.of_nat (length l1)) d = Some (l1, r)) by (rewrite Ed; apply take_app).
+      pose proof (take_add _ (n - N.of_nat (length l1)) _ _ _ Et) as Hadd.
+      replace (N.of_nat (length l1) + (n - N.of_nat (length l1))) with n in Hadd by lia.
+      change (wp (mps_skip_bytes lf (n - N.of_nat (length l1))) (st r) Q).
+      apply IH.
+      + exact HSr.
+      + unfold sizet in *. lia.
+      + rewrite Ed, app_length in Hf. lia.
+      + intros s r' Es HSr'. rewrite Es in Hadd. apply (H1 _ _ Hadd HSr').
+      + intros Es. rewrite Es in Hadd. apply H2. exact Hadd.
+  Qed.
+
+  (* the part after the header: "if (size == 0 || SkipBytes(reader, size)) children else throw"; after the
+     throw the reader stands at the end of the data *)
+  Lemma wp_skip_tail (children : prog (sr unit)) lf size d (Q : sr unit -> mem -> Prop) :
+    Suffix d -> size < 0x400000000 -> (length d < lf)%nat ->
     (forall s r, take size d = Some (s, r) -> Suffix r -> wp children (st r) Q) ->
-    (take size d = None -> forall m', Q (QErr EParse) m') ->
+    (take size d = None -> Q (QErr EParse) (st [])) ->
     wp (if size =? 0 then children
-        else get_position (fun p => set_position (p + size) (fun ok => if ok then children else Ret (QErr EParse))))
+        else qbind (mps_skip_bytes lf size) (fun ok => if ok then children else Ret (QErr EParse)))
        (st d) Q.
   Proof.
-    intros HS Hsz H1 H2. destruct (N.eqb_spec size 0) as [->|Hs0].
+    intros HS Hsz Hf H1 H2. destruct (N.eqb_spec size 0) as [->|Hs0].
     - apply (H1 [] d); [apply take_0 | exact HS].
-    - apply wp_advance; try assumption.
-      intros Et. cbn [wp]. apply H2. exact Et.
+    - apply wp_qbind. apply wp_skip_bytes; [exact HS | unfold sizet; lia | exact Hf | |].
+      + intros s r Et HSr. apply (H1 s r Et HSr).
+      + intros Et. cbn [wp]. apply H2. exact Et.
   Qed.
 
   Lemma take_after_header k x d v r : get_value k d = Some (v, r) ->
@@ -560,22 +596,23 @@ Section Wp.
     apply take_firstn in Et. destruct Et as [<- _]. reflexivity.
   Qed.
 
-  Theorem wp_skip_impl : forall f d, Suffix d -> wp (mps_skip_impl f) (st d) (spost (skip_impl f d)).
+  Theorem wp_skip_impl lf : forall f d, Suffix d -> (length d < lf)%nat ->
+    wp (mps_skip_impl lf f) (st d) (spost (skip_impl f d)).
   Proof.
-    induction f as [|f IH]; intros d HS; [reflexivity|].
+    induction f as [|f IH]; intros d HS Hlf; [reflexivity|].
     cbn [mps_skip_impl skip_impl]. apply wp_read_byte; [exact HS|].
     destruct d as [|b r1]; cbn [hd_error tl]; [reflexivity|].
-    pose proof (suffix_tl _ _ HS) as HS1.
+    pose proof (suffix_tl _ _ HS) as HS1. cbn [length] in Hlf.
     pose proof (byte_meta_ok b) as [Mext [Mdata [Mfix _]]].
     set (m := byte_meta b) in *.
     destruct (vtype_eqb (m_ty m) TUnknown); [reflexivity|].
     apply wp_qbind.
     (* the children, once the position is behind the value's own bytes *)
-    assert (Children : forall ext r2, Suffix r2 ->
+    assert (Children : forall ext r2, Suffix r2 -> (length r2 <= length r1)%nat ->
       wp (if ext =? 0 then Ret (QOk tt)
           else match m_ty m with
-               | TMap => mps_skip_rep (mps_skip_impl f) f (2 * ext)
-               | TArr => mps_skip_rep (mps_skip_impl f) f ext
+               | TMap => mps_skip_rep (mps_skip_impl lf f) f (2 * ext)
+               | TArr => mps_skip_rep (mps_skip_impl lf f) f ext
                | _ => Ret (QOk tt)
                end) (st r2)
          (spost (if ext =? 0 then SOk r2
@@ -584,39 +621,44 @@ Section Wp.
                       | TArr => skip_rep (skip_impl f) f ext r2
                       | _ => SOk r2
                       end))).
-    { intros ext r2 HS2. destruct (ext =? 0); [cbn [wp spost]; auto|].
-      destruct (m_ty m); try (cbn [wp spost]; auto); apply wp_skip_rep; auto. }
+    { intros ext r2 HS2 Hl2. destruct (ext =? 0); [cbn [wp spost]; auto|].
+      assert (Hprog : forall d r, skip_impl f d = SOk r -> (length r <= length d)%nat).
+      { intros d0 r0 E0. apply skip_impl_progress in E0. lia. }
+      assert (Hstep : forall d0, Suffix d0 -> (length d0 <= length r1)%nat ->
+                wp (mps_skip_impl lf f) (st d0) (spost (skip_impl f d0))).
+      { intros d0 HS0 Hl0. apply IH; [exact HS0 | lia]. }
+      destruct (m_ty m); try (cbn [wp spost]; auto);
+        apply (wp_skip_rep _ _ (length r1) Hprog Hstep); assumption. }
     destruct (m_fixed m =? 0) eqn:Efix; cbn [negb].
     - destruct (m_ext m =? 0) eqn:Eext; cbn [negb].
       + (* one byte, or a fixed-width scalar *)
         cbn [wp]. replace (if is_sized (m_ty m) then m_data m + 0 else m_data m) with (m_data m)
           by (destruct (is_sized (m_ty m)); lia).
         replace (if is_sized (m_ty m) then 0 else 0) with 0 by (destruct (is_sized (m_ty m)); reflexivity).
-        apply wp_skip_tail; [exact HS1 | lia | |].
-        * intros s r2 Et HS2. rewrite Et. apply Children. exact HS2.
-        * intros Et m'. rewrite Et. reflexivity.
+        apply wp_skip_tail; [exact HS1 | lia | lia | |].
+        * intros s r2 Et HS2. rewrite Et. apply Children; [exact HS2|]. apply take_length in Et. lia.
+        * intros Et. rewrite Et. reflexivity.
       + (* a length field *)
         apply N.eqb_neq in Eext.
         apply wp_read_ext_size; [exact HS1 | lia | |].
         * intros v r2 Eg HS2. rewrite Eg.
           assert (Hk4 : m_ext m <= 4) by lia.
           pose proof (get_value_bound _ _ _ _ (suffix_bytes _ HS1) Hk4 Eg) as Hv.
+          pose proof (get_value_suffix_len _ _ _ _ Eg) as Ll.
           set (size := if is_sized (m_ty m) then m_data m + v else m_data m).
           replace (if is_sized (m_ty m) then m_data m + m_ext m + v else m_data m + m_ext m)
             with (m_ext m + size) by (subst size; destruct (is_sized (m_ty m)); lia).
           rewrite (take_after_header _ size _ _ _ Eg).
-          apply wp_skip_tail; [exact HS2 | subst size; destruct (is_sized (m_ty m)); lia | |].
-          -- intros s r3 Et HS3. rewrite Et. apply Children. exact HS3.
-          -- intros Et m'. rewrite Et. reflexivity.
+          apply wp_skip_tail; [exact HS2 | subst size; destruct (is_sized (m_ty m)); lia | lia | |].
+          -- intros s r3 Et HS3. rewrite Et. apply Children; [exact HS3|]. apply take_length in Et. lia.
+          -- intros Et. rewrite Et. reflexivity.
         * intros Eg. rewrite Eg. reflexivity.
     - (* fixed sequence: fixstr, fixarray, fixmap, fixext *)
       cbn [wp].
-      apply wp_skip_tail; [exact HS1 | destruct (is_sized (m_ty m)); lia | |].
-      + intros s r2 Et HS2. rewrite Et. apply Children. exact HS2.
-      + intros Et m'. rewrite Et. reflexivity.
+      apply wp_skip_tail; [exact HS1 | destruct (is_sized (m_ty m)); lia | lia | |].
+      + intros s r2 Et HS2. rewrite Et. apply Children; [exact HS2|]. apply take_length in Et. lia.
+      + intros Et. rewrite Et. reflexivity.
   Qed.
-
-
 
   (* ---------------------------------------------------------------- SkipValueImpl, with the position at the throw *)
 
@@ -641,21 +683,10 @@ Section Wp.
       + subst a. reflexivity.
   Qed.
 
-  Lemma wp_skip_tail_at (children : prog (sr unit)) size d (Q : sr unit -> mem -> Prop) : Suffix d -> size < 0x400000000 ->
-    (forall s r, take size d = Some (s, r) -> Suffix r -> wp children (st r) Q) ->
-    (take size d = None -> Q (QErr EParse) (mkM (length data - length d) true)) ->
-    wp (if size =? 0 then children
-        else get_position (fun p => set_position (p + size) (fun ok => if ok then children else Ret (QErr EParse))))
-       (st d) Q.
+  Theorem wp_skip_impl_at lf : (length data < lf)%nat ->
+    forall f d, Suffix d -> wp (mps_skip_impl lf f) (st d) (apost (sskip_at_impl f d)).
   Proof.
-    intros HS Hsz H1 H2. destruct (N.eqb_spec size 0) as [->|Hs0].
-    - apply (H1 [] d); [apply take_0 | exact HS].
-    - apply wp_advance; try assumption.
-  Qed.
-
-  Theorem wp_skip_impl_at : forall f d, Suffix d -> wp (mps_skip_impl f) (st d) (apost (sskip_at_impl f d)).
-  Proof.
-    induction f as [|f IH]; intros d HS; [reflexivity|].
+    intros Hlf. induction f as [|f IH]; intros d HS; [reflexivity|].
     cbn [mps_skip_impl sskip_at_impl]. apply wp_read_byte; [exact HS|].
     destruct d as [|b r1]; cbn [hd_error tl].
     { cbn [wp apost st m_pos]. auto. }
@@ -667,8 +698,8 @@ Section Wp.
     assert (Children : forall ext r2, Suffix r2 ->
       wp (if ext =? 0 then Ret (QOk tt)
           else match m_ty m with
-               | TMap => mps_skip_rep (mps_skip_impl f) f (2 * ext)
-               | TArr => mps_skip_rep (mps_skip_impl f) f ext
+               | TMap => mps_skip_rep (mps_skip_impl lf f) f (2 * ext)
+               | TArr => mps_skip_rep (mps_skip_impl lf f) f ext
                | _ => Ret (QOk tt)
                end) (st r2)
          (apost (if ext =? 0 then AOk r2
@@ -685,17 +716,17 @@ Section Wp.
           let children :=
             if ext =? 0 then Ret (QOk tt)
             else match m_ty m with
-                 | TMap => mps_skip_rep (mps_skip_impl f) f (2 * ext)
-                 | TArr => mps_skip_rep (mps_skip_impl f) f ext
+                 | TMap => mps_skip_rep (mps_skip_impl lf f) f (2 * ext)
+                 | TArr => mps_skip_rep (mps_skip_impl lf f) f ext
                  | _ => Ret (QOk tt)
                  end in
           if size =? 0 then children
-          else get_position (fun p => set_position (p + size) (fun ok => if ok then children else Ret (QErr EParse))))
+          else qbind (mps_skip_bytes lf size) (fun ok => if ok then children else Ret (QErr EParse)))
          (st r2)
          (apost (let size := if is_sized (m_ty m) then m_data m + ext0 else m_data m in
                  let ext := if is_sized (m_ty m) then 0 else ext0 in
                  match take size r2 with
-                 | None => AErr EParse r2
+                 | None => AErr EParse []
                  | Some (_, r3) =>
                    if ext =? 0 then AOk r3
                    else match m_ty m with
@@ -704,10 +735,10 @@ Section Wp.
                         | _ => AOk r3
                         end
                  end))).
-    { intros ext0 r2 HS2 Hext. cbv zeta.
-      apply wp_skip_tail_at; [exact HS2 | destruct (is_sized (m_ty m)); lia | |].
+    { intros ext0 r2 HS2 Hext. cbv zeta. pose proof (suffix_len r2 HS2) as Hl2.
+      apply wp_skip_tail; [exact HS2 | destruct (is_sized (m_ty m)); lia | lia | |].
       - intros s r3 Et HS3. rewrite Et. apply Children. exact HS3.
-      - intros Et. rewrite Et. cbn [apost m_pos]. auto. }
+      - intros Et. rewrite Et. cbn [apost st m_pos length]. auto. }
     destruct (m_fixed m =? 0) eqn:Efix; cbn [negb].
     - destruct (m_ext m =? 0) eqn:Eext; cbn [negb].
       + cbn [wp]. apply (Tail 0 r1 HS1). lia.
@@ -740,7 +771,7 @@ Section Wp.
     destruct (negb (vtype_eqb ty TNil) && match o_mismatch o with PThrow => true | PSkip => false end);
       [reflexivity|].
     apply wp_pbind. rewrite <- (skip_value_fuel fuel d Hf).
-    eapply wp_mono; [|apply wp_skip_impl; exact HS].
+    eapply wp_mono; [|apply wp_skip_impl; assumption].
     intros a m' Ha. destruct (skip_impl fuel d) as [r|e|]; cbn [spost] in Ha; cbn [wp post].
     - destruct Ha as [-> [-> HSr]]. auto.
     - subst a. reflexivity.
@@ -1121,7 +1152,7 @@ Section Wp.
 
   Theorem wp_skip_value fuel d : Suffix d -> (length d < fuel)%nat ->
     wp (mps_skip_value fuel) (st d) (spost (skip_value d)).
-  Proof. intros HS Hf. rewrite <- (skip_value_fuel fuel d Hf). apply wp_skip_impl. exact HS. Qed.
+  Proof. intros HS Hf. rewrite <- (skip_value_fuel fuel d Hf). apply wp_skip_impl; assumption. Qed.
 
 
   (* ---------------------------------------------------------------- one operation, sequences *)
@@ -1290,9 +1321,21 @@ Proof. unfold st, mem_start. rewrite Nat.sub_diag. reflexivity. Qed.
 
 (* ---- the two at-throw positions compared ---- *)
 
-(* first byte of a str / bin / ext whose length comes in a length field *)
-Definition sized_len (b : N) : bool :=
-  let m := byte_meta b in is_sized (m_ty m) && (m_fixed m =? 0) && negb (m_ext m =? 0).
+(* the value that starts with byte b and goes on with r1 has a complete header but its own bytes are cut short,
+   and at least one byte follows b *)
+Definition cut_after (b : N) (r1 : list N) : bool :=
+  let m := byte_meta b in
+  negb (vtype_eqb (m_ty m) TUnknown) && match r1 with [] => false | _ => true end &&
+  match (if negb (m_fixed m =? 0) then Some (m_fixed m, r1)
+         else if negb (m_ext m =? 0) then get_value (m_ext m) r1
+         else Some (0, r1)) with
+  | None => false
+  | Some (ext0, r2) =>
+    match take (if is_sized (m_ty m) then m_data m + ext0 else m_data m) r2 with
+    | None => true
+    | Some _ => false
+    end
+  end.
 
 Lemma byte_meta_lenfield b : let m := byte_meta b in
   m_fixed m = 0 -> m_ext m <> 0 -> is_sized (m_ty m) = false -> m_data m = 0.
@@ -1301,14 +1344,13 @@ Proof.
   all: cbn [m_ty m_fixed m_data m_ext is_sized]; intros; try reflexivity; try discriminate; try lia.
 Qed.
 
-(* same outcome; at a throw the stream reader stands where the string reader stands, or behind the
-   complete length field of the str / bin / ext whose payload is cut short *)
+(* same outcome; at a throw the stream reader stands where the string reader stands, or — the value's own
+   bytes being cut short — at the end of the data *)
 Definition at_rel (d : list N) (x y : ares) : Prop :=
   match x, y with
   | AOk r, AOk r' => r = r'
   | AErr e a, AErr e' a' =>
-      e = e' /\ (a = a' \/ exists pre b v, d = pre ++ b :: a' /\ sized_len b = true /\
-                                           get_value (m_ext (byte_meta b)) a' = Some (v, a))
+      e = e' /\ (a = a' \/ (a = [] /\ exists pre b, d = pre ++ b :: a' /\ cut_after b a' = true))
   | AFuel, AFuel => True
   | _, _ => False
   end.
@@ -1316,8 +1358,8 @@ Definition at_rel (d : list N) (x y : ares) : Prop :=
 Lemma at_rel_lift p d x y : at_rel d x y -> at_rel (p ++ d) x y.
 Proof.
   destruct x as [r|e a|], y as [r'|e' a'|]; cbn [at_rel]; try tauto.
-  intros [He [H|[pre [b [v [Hd [Hs Hg]]]]]]]; split; try exact He; [left; exact H|].
-  right. exists (p ++ pre), b, v. rewrite Hd, app_assoc. auto.
+  intros [He [H|[Ha [pre [b [Hd Hc]]]]]]; split; try exact He; [left; exact H|].
+  right. split; [exact Ha|]. exists (p ++ pre), b. rewrite Hd, app_assoc. auto.
 Qed.
 
 Lemma skip_rep_suffix (step : list N -> sres) :
@@ -1375,8 +1417,14 @@ Proof.
   induction f as [|f IH]; intros d; [exact I|].
   cbn [sskip_at_impl skip_at_impl]. destruct d as [|b r1]; [cbn [at_rel]; auto|].
   pose proof (byte_meta_lenfield b) as Mlf. cbv zeta in Mlf.
+  (* when the stream reader stands at the end and the string reader behind b *)
+  assert (Cut : forall e, cut_after b r1 = true \/ r1 = [] ->
+            at_rel (b :: r1) (AErr e []) (AErr e r1)).
+  { intros e [Hc| ->]; cbn [at_rel]; (split; [reflexivity|]); [right | left; reflexivity].
+    split; [reflexivity|]. exists [], b. auto. }
+  unfold cut_after in Cut. cbv zeta in Cut.
   set (m := byte_meta b) in *.
-  destruct (vtype_eqb (m_ty m) TUnknown); [cbn [at_rel]; auto|].
+  destruct (vtype_eqb (m_ty m) TUnknown); [cbn [at_rel]; auto|]. cbn [negb andb] in Cut.
   assert (Children : forall ext r3 p, b :: r1 = p ++ r3 ->
     at_rel (b :: r1)
       (if ext =? 0 then AOk r3
@@ -1394,16 +1442,19 @@ Proof.
   { intros ext r3 p Hp. destruct (ext =? 0); [reflexivity|].
     destruct (m_ty m); try reflexivity; rewrite Hp; apply at_rel_lift;
       apply skip_rep_at_rel; try exact IH; apply skip_at_impl_suffix. }
-  (* the same header on both sides, up to where the length field is accounted for *)
-  destruct (m_fixed m =? 0) eqn:Efix; cbn [negb].
-  - destruct (m_ext m =? 0) eqn:Eext; cbn [negb].
-    + replace (if is_sized (m_ty m) then m_data m + 0 else m_data m) with (m_data m)
+  assert (Nil : forall (X : list N) (c : bool), (match X with [] => false | _ :: _ => true end && c = true \/ X = []) <->
+                  (X = [] \/ c = true)).
+  { intros X c. destruct X; cbn [andb]; split; intros [H|H]; try discriminate; auto. }
+  destruct (m_fixed m =? 0) eqn:Efix; cbn [negb] in *.
+  - destruct (m_ext m =? 0) eqn:Eext; cbn [negb] in *.
+    + replace (if is_sized (m_ty m) then m_data m + 0 else m_data m) with (m_data m) in *
         by (destruct (is_sized (m_ty m)); lia).
-      destruct (take (m_data m) r1) as [[s r3]|] eqn:Et; [|cbn [at_rel]; auto].
-      apply take_some in Et. destruct Et as [Et _]. apply (Children _ r3 (b :: s)). rewrite Et. reflexivity.
+      destruct (take (m_data m) r1) as [[s r3]|] eqn:Et.
+      * apply take_some in Et. destruct Et as [Et _]. apply (Children _ r3 (b :: s)). rewrite Et. reflexivity.
+      * apply Cut. apply Nil. right. reflexivity.
     + apply N.eqb_eq in Efix. apply N.eqb_neq in Eext.
       destruct (get_value (m_ext m) r1) as [[v r2]|] eqn:Eg; [|cbn [at_rel]; auto].
-      set (size := if is_sized (m_ty m) then m_data m + v else m_data m).
+      set (size := if is_sized (m_ty m) then m_data m + v else m_data m) in *.
       replace (if is_sized (m_ty m) then m_data m + m_ext m + v else m_data m + m_ext m)
         with (m_ext m + size) by (subst size; destruct (is_sized (m_ty m)); lia).
       rewrite (take_after_header _ size _ _ _ Eg).
@@ -1412,46 +1463,46 @@ Proof.
         assert (r2' = r2) by congruence. subst r2'.
         apply take_some in Et. destruct Et as [Et _]. apply take_some in El. destruct El as [El _].
         apply (Children _ r3 (b :: lb ++ s)). rewrite El, Et. cbn [app]. rewrite <- app_assoc. reflexivity.
-      * (* the payload is cut short *)
-        destruct (is_sized (m_ty m)) eqn:Esz.
-        -- cbn [at_rel]. split; [reflexivity|]. right. exists [], b, v. split; [reflexivity|]. split; [|exact Eg].
-           unfold sized_len. fold m. rewrite Esz, Efix. cbn [andb N.eqb]. apply negb_true_iff. apply N.eqb_neq. exact Eext.
-        -- subst size. rewrite (Mlf Efix Eext eq_refl) in Et. rewrite take_0 in Et. discriminate.
-  - destruct (take (if is_sized (m_ty m) then m_data m + m_fixed m else m_data m) r1) as [[s r3]|] eqn:Et;
-      [|cbn [at_rel]; auto].
-    apply take_some in Et. destruct Et as [Et _]. apply (Children _ r3 (b :: s)). rewrite Et. reflexivity.
+      * apply Cut. apply Nil. right. reflexivity.
+  - destruct (take (if is_sized (m_ty m) then m_data m + m_fixed m else m_data m) r1) as [[s r3]|] eqn:Et.
+    + apply take_some in Et. destruct Et as [Et _]. apply (Children _ r3 (b :: s)). rewrite Et. reflexivity.
+    + apply Cut. apply Nil. right. reflexivity.
 Qed.
 
-(* the class, decided from the string reader's answer alone: it threw right behind the type byte of a
-   str / bin / ext 8,16,32 whose length field is complete *)
-Definition len_field_cut (f : nat) (d : list N) : bool :=
+(* the class, decided from the string reader's answer alone: it threw behind the type byte b of a value whose
+   header is complete and whose own bytes are cut short, with at least one byte left *)
+Definition payload_cut (f : nat) (d : list N) : bool :=
   match skip_at_impl f d with
   | AErr _ r' =>
     match nth_error d (length d - length r' - 1) with
-    | Some b => sized_len b && match get_value (m_ext (byte_meta b)) r' with Some _ => true | None => false end
+    | Some b => cut_after b r'
     | None => false
     end
   | _ => false
   end.
 
-Theorem skip_throw_outside f d : len_field_cut f d = false -> sskip_at_impl f d = skip_at_impl f d.
+Theorem skip_throw_outside f d : payload_cut f d = false -> sskip_at_impl f d = skip_at_impl f d.
 Proof.
-  intros Hc. pose proof (skip_at_rel f d) as H. unfold len_field_cut in Hc.
+  intros Hc. pose proof (skip_at_rel f d) as H. unfold payload_cut in Hc.
   destruct (sskip_at_impl f d) as [r|e a|], (skip_at_impl f d) as [r'|e' a'|]; cbn [at_rel] in H; try contradiction.
   - congruence.
-  - destruct H as [-> [->|[pre [b [v [Hd [Hs Hg]]]]]]]; [reflexivity|].
+  - destruct H as [-> [->|[Ha [pre [b [Hd Hcut]]]]]]; [reflexivity|].
     exfalso. rewrite Hd in Hc at 1 2. rewrite app_length in Hc. cbn [length] in Hc.
     replace (length pre + S (length a') - length a' - 1)%nat with (length pre) in Hc by lia.
     rewrite nth_error_app2, Nat.sub_diag in Hc by lia. cbn [nth_error] in Hc.
-    rewrite Hs, Hg in Hc. discriminate.
+    rewrite Hcut in Hc. discriminate.
   - reflexivity.
 Qed.
 
 Lemma skip_throw_witness :
-  sskip_at_impl 10 [0xD9; 5; 0x61] = AErr EParse [0x61] /\ skip_at_impl 10 [0xD9; 5; 0x61] = AErr EParse [5; 0x61] /\
-  len_field_cut 10 [0xD9; 5; 0x61] = true /\
-  sskip_at_impl 10 [0x92; 1; 0xC5; 0; 3; 0x61] = AErr EParse [0x61] /\
-  skip_at_impl 10 [0x92; 1; 0xC5; 0; 3; 0x61] = AErr EParse [0; 3; 0x61].
+  sskip_at_impl 10 [0xD9; 5; 0x61] = AErr EParse [] /\ skip_at_impl 10 [0xD9; 5; 0x61] = AErr EParse [5; 0x61] /\
+  payload_cut 10 [0xD9; 5; 0x61] = true /\
+  sskip_at_impl 10 [0x92; 1; 0xC5; 0; 3; 0x61] = AErr EParse [] /\
+  skip_at_impl 10 [0x92; 1; 0xC5; 0; 3; 0x61] = AErr EParse [0; 3; 0x61] /\
+  sskip_at_impl 10 [0xCD; 1] = AErr EParse [] /\ skip_at_impl 10 [0xCD; 1] = AErr EParse [1] /\
+  (* not in the class: the length field itself is cut, 0xC1, nothing left *)
+  sskip_at_impl 10 [0xDA; 1] = skip_at_impl 10 [0xDA; 1] /\ sskip_at_impl 10 [0xC1; 0] = skip_at_impl 10 [0xC1; 0] /\
+  sskip_at_impl 10 [0x92] = skip_at_impl 10 [0x92].
 Proof. vm_compute. repeat split; reflexivity. Qed.
 
 Theorem skip_throw_same_refuted : ~ (forall f d, sskip_at_impl f d = skip_at_impl f d).
@@ -1461,8 +1512,9 @@ Proof.
 Qed.
 
 Lemma skip_throw_position K data : (8 <= K)%nat -> fits_streamoff data -> bytes_ok data ->
-  forall f d, Suffix data d -> wp K data (mps_skip_impl f) (st data d) (apost data (sskip_at_impl f d)).
-Proof. intros HK Hl Hb f d HS. apply wp_skip_impl_at; assumption. Qed.
+  forall lf f d, (length data < lf)%nat -> Suffix data d ->
+  wp K data (mps_skip_impl lf f) (st data d) (apost data (sskip_at_impl f d)).
+Proof. intros HK Hl Hb lf f d Hlf HS. apply wp_skip_impl_at; assumption. Qed.
 
 (* ---- a single function: on the in-memory reader, at any suffix ---- *)
 
@@ -1895,10 +1947,9 @@ Proof. vm_compute. repeat split; reflexivity. Qed.
 
 (* On a stream whose streambuf cannot seek, CBinaryStreamReader::SetPosition(p) works only when p lies in
    the cached window, is the stream position itself, or is beyond the data (op_local of StreamBsrProofs:
-   finding F16b).  The MsgPack stream reader calls SetPosition in SkipValueImpl (forward, checked: a
-   refusal becomes ParsingException), in ReadExtFamilyType (back to prevPos, result dropped), in
-   ReadValue(CBinTimestamp) (forward over the header, result dropped) and in its own SetPosition (result
-   dropped).  [prog_seek_free K data p s]: along the run of program p from reader state s, every
+   finding F16b).  The MsgPack stream reader calls SetPosition in ReadExtFamilyType (back to prevPos), in
+   ReadValue(CBinTimestamp) (forward over the header it has just looked at) and in its own SetPosition;
+   a refusal is InputOutputError (fix 24799d8).  SkipValueImpl does not seek any more (fix e491e27).  [prog_seek_free K data p s]: along the run of program p from reader state s, every
    SetPosition issued is local. *)
 Fixpoint prog_seek_free {A} (K : nat) (data : list N) (p : prog A) (s : bsr) : bool :=
   match p with
@@ -1990,15 +2041,16 @@ Lemma ns_type_witness :
     map (fun i => AOkAt VUnit (N.of_nat i)) (seq 1 7) ++ [AOkAt (VType TTimestamp) 7; ANotAt 13].
 Proof. vm_compute. split; reflexivity. Qed.
 
-(* (3) EXCEPTION ON A WELL-FORMED DOCUMENT (unchanged).  SkipValue of a value that ends beyond the cached
-   window: the forward SetPosition is refused, SkipValueImpl throws "Unexpected end of input archive". *)
+(* (3) SkipValue of a value that ends beyond the cached window: fine since fix e491e27 (SkipBytes reads through
+   the value; before, the forward SetPosition was refused and SkipValueImpl threw ParsingError) *)
 Definition ns_skip_doc : list N := [0xAA; 1; 2; 3; 4; 5; 6; 7; 8; 9; 10; 0x2A].
 Lemma ns_skip_witness :
-  mps_run_bsr no_narrow id_widen 8 (stream_of ns_skip_doc false) 20 throw_all [RdSkip; RdInt u8t] = Ok [AErrOf EParse] /\
+  mps_run_bsr no_narrow id_widen 8 (stream_of ns_skip_doc false) 20 throw_all [RdSkip; RdInt u8t] =
+    Ok (str_run no_narrow id_widen ns_skip_doc throw_all [RdSkip; RdInt u8t]) /\
   str_run no_narrow id_widen ns_skip_doc throw_all [RdSkip; RdInt u8t] = [AOkAt VUnit 11; AOkAt (VInt 42) 12] /\
-  (* the same value READ is fine: ReadValue(string_view) goes through ReadByChunks, no seek *)
-  mps_run_bsr no_narrow id_widen 8 (stream_of ns_skip_doc false) 20 throw_all [RdStr; RdInt u8t] =
-    Ok (str_run no_narrow id_widen ns_skip_doc throw_all [RdStr; RdInt u8t]).
+  nonseek_ok no_narrow id_widen 8 ns_skip_doc 20 throw_all [RdSkip; RdInt u8t] = true /\
+  (* nested containers and a mismatching target skipped across several chunks *)
+  nonseek_ok no_narrow id_widen 8 straddle_doc 100 skip_all [RdSkip; RdSkip; RdNil; RdSkip; RdStr; RdSkip; RdSkip] = true.
 Proof. vm_compute. repeat split; reflexivity. Qed.
 
 (* (4) the reader's own SetPosition (the scopes' seek to mStartPos) back across a chunk boundary:
@@ -2018,17 +2070,18 @@ Theorem seq_nonseekable_refuted :
        forallb (rop_ok data) ops = true ->
        mps_run_bsr narrow widen K (stream_of data false) fuel o ops = Ok (str_run narrow widen data o ops)).
 Proof.
-  intros H. destruct ns_skip_witness as [W1 [W2 _]].
-  specialize (H 8%nat ns_skip_doc no_narrow id_widen 20%nat throw_all [RdSkip; RdInt u8t]).
+  intros H. destruct ns_ts_witness as [W1 [W2 _]].
+  specialize (H 8%nat ns_ts_doc no_narrow id_widen 20%nat throw_all (nils 7 ++ [RdTs])).
   rewrite W1, W2 in H.
-  assert (E : Ok [AErrOf EParse] = Ok [AOkAt VUnit 11; AOkAt (VInt 42) 12]).
+  assert (E : Ok (map (fun i => AOkAt VUnit (N.of_nat i)) (seq 1 7) ++ [AIOErr]) =
+              Ok (map (fun i => AOkAt VUnit (N.of_nat i)) (seq 1 7) ++ [AOkAt (VTs 5 0) 13])).
   { apply H.
     - lia.
     - unfold fits_streamoff. cbn. lia.
-    - unfold bytes_ok, ns_skip_doc. repeat constructor.
+    - unfold bytes_ok, ns_ts_doc. cbn. repeat constructor.
     - cbn. lia.
     - reflexivity. }
-  discriminate E.
+  vm_compute in E. discriminate E.
 Qed.
 
 (* a document that lies in one chunk, and one read front to back without skipping or type probing across a
@@ -2117,7 +2170,13 @@ Proof.
   apply guarded_qbind; [exact Hs | intros _; apply IH].
 Qed.
 
-Lemma guarded_skip_impl : forall f, guarded (mps_skip_impl f).
+Lemma guarded_skip_bytes : forall lf n, guarded (mps_skip_bytes lf n).
+Proof.
+  induction lf as [|lf IH]; intros n; cbn [mps_skip_bytes]; destruct (n =? 0); try exact I.
+  apply guarded_chunks. intros [|x l]; [exact I | apply IH].
+Qed.
+
+Lemma guarded_skip_impl lf : forall f, guarded (mps_skip_impl lf f).
 Proof.
   induction f as [|f IH]; [exact I|]. cbn [mps_skip_impl]. apply guarded_read_byte. intros [b|]; [|exact I].
   destruct (vtype_eqb (m_ty (byte_meta b)) TUnknown); [exact I|].
@@ -2127,16 +2186,14 @@ Proof.
   - intros ext0. cbv zeta.
     assert (Ch : forall ext, guarded (if ext =? 0 then Ret (QOk tt)
                   else match m_ty (byte_meta b) with
-                       | TMap => mps_skip_rep (mps_skip_impl f) f (2 * ext)
-                       | TArr => mps_skip_rep (mps_skip_impl f) f ext
+                       | TMap => mps_skip_rep (mps_skip_impl lf f) f (2 * ext)
+                       | TArr => mps_skip_rep (mps_skip_impl lf f) f ext
                        | _ => Ret (QOk tt)
                        end)).
     { intros ext. destruct (ext =? 0); [exact I|].
       destruct (m_ty (byte_meta b)); try exact I; apply guarded_skip_rep; exact IH. }
     match goal with |- guarded (if ?c then _ else _) => destruct c end; [apply Ch|].
-    apply guarded_get_pos. intros p. apply guarded_set_pos.
-    + intros [|]; [apply Ch | exact I].
-    + eexists. split; [reflexivity | left; reflexivity].
+    apply guarded_qbind; [apply guarded_skip_bytes|]. intros [|]; [apply Ch | exact I].
 Qed.
 
 Lemma guarded_handle_mismatch {A} fuel o ty : guarded (@mps_handle_mismatch A fuel o ty).
